@@ -262,6 +262,20 @@ func tableSequence(o *Out, r *rand.Rand, seqNo, nOps int) {
 		}
 		port := 30000 + r.Intn(4)
 		seq := uint64(1 + r.Intn(3))
+		// a newer record of a known id that keeps its address: only the port moves, or only the sequence number
+		if r.Intn(4) == 0 {
+			for k := len(recs) - 1; k >= 0; k-- {
+				if recs[k].idIdx == idIdx && recs[k].ip != nil {
+					ip = recs[k].ip
+					seq = recs[k].seq + uint64(r.Intn(2))
+					if r.Intn(3) == 0 {
+						port = recs[k].port
+						seq = recs[k].seq + 1
+					}
+					break
+				}
+			}
+		}
 		n := signRec(key, ip, port, seq)
 		recs = append(recs, tabRec{idIdx, n, ip, port, seq})
 		k := len(recs) - 1
